@@ -10,4 +10,4 @@ Extraction "../driver/model.ml" build_taxonomy load vertical lateral hogmap upma
   write8 annot_depth path_up all_nodes search lcs genome_refs
   wfb wf_node export_doc load_filtered pass1
   get_genes_by_external_id get_taxon_by_name get_gene_by_id singles_of
-  srun sinit sstep load_oma consistentb iham_page extant_listing ancestral_listing.
+  srun sinit sstep load_oma consistentb iham_page extant_listing ancestral_listing s_anc_by_name s_ext_by_name s_anc_by_taxon.
